@@ -4,21 +4,21 @@ namespace Netpoll.Buf.Own
 open Netpoll.Buf
 
 /-- a struct made by `newLinkBufferNode(n)`, `n > 0`, is reusable -/
-theorem newNode_managed (cfg : Cfg) (s : Ledger) {n : Nat} (hn : n ≠ 0) :
+theorem newNode_managed (cfg : Cfg) (s : Mem) {n : Nat} (hn : n ≠ 0) :
     ∃ nd : NodeS, (s.newNode cfg n).1.nodes[(s.newNode cfg n).2]? = some nd ∧ nd.unmanaged = false := by
   obtain ⟨h1, h2⟩ := newNode_cases cfg s n
   rcases h2 with ⟨h0, _⟩ | ⟨_, c, h2⟩
   · exact absurd h0 hn
   · rw [h2, h1]
     have hnodes : (s.mallocMem cfg c).1.nodes = s.nodes := by
-      unfold Ledger.mallocMem; split <;> simp [Ledger.allocBlock]
+      unfold Mem.mallocMem; split <;> simp [Mem.allocBlock]
     exact ⟨{ block := some (s.mallocMem cfg c).2.1, cap := (s.mallocMem cfg c).2.2 }, by simp only [hnodes]; simp, rfl⟩
 
 /-- the node where `growth` stops is reusable -/
-def WriteManaged (s : Ledger) (suf : List Nat) (k : Nat) : Prop :=
+def WriteManaged (s : Mem) (suf : List Nat) (k : Nat) : Prop :=
   ∃ (i : Nat) (nd : NodeS), suf[k]? = some i ∧ s.nodes[i]? = some nd ∧ nd.unmanaged = false
 
-theorem growthLoop_typed {cfg : Cfg} {st : Bool} {n : Nat} (hn0 : n ≠ 0) : ∀ (l : List Nat) {s s' : Ledger} {suf : List Nat} {w w' : Nat},
+theorem growthLoop_typed {cfg : Cfg} {st : Bool} {n : Nat} (hn0 : n ≠ 0) : ∀ (l : List Nat) {s s' : Mem} {suf : List Nat} {w w' : Nat},
     Core cfg st s → growthLoop cfg n s l w = some (s', suf, w') →
     Ext s s' ∧ Core cfg st s' ∧ w ≤ w' ∧ WriteManaged s' suf (w' - w)
   | [], s, s', suf, w, w', _, h => by simp [growthLoop] at h
@@ -66,7 +66,7 @@ theorem growthLoop_typed {cfg : Cfg} {st : Bool} {n : Nat} (hn0 : n ≠ 0) : ∀
         · exact absurd (Or.inl hu) hcond
 
 /-- `growth(n)`: afterwards the write node is reusable (for `n > 0`) -/
-theorem growth_typed {cfg : Cfg} {st : Bool} {s s' : Ledger} {b b' : Buf} {n : Nat} (hc : Core cfg st s) (hb : BufOK cfg s b)
+theorem growth_typed {cfg : Cfg} {st : Bool} {s s' : Mem} {b b' : Buf} {n : Nat} (hc : Core cfg st s) (hb : BufOK cfg s b)
     (h : growth cfg s b n = some (s', b')) :
     Tri cfg st s s' b' ∧ (n ≠ 0 → WriteManaged s' b'.chain b'.w) ∧ b'.caches = b.caches ∧ b'.cachePeek = b.cachePeek := by
   unfold growth at h
@@ -87,7 +87,7 @@ theorem growth_typed {cfg : Cfg} {st : Bool} {s s' : Ledger} {b b' : Buf} {n : N
       show (b.chain.take b.w ++ suf)[w']? = some i
       rw [List.getElem?_append_right (by omega), hlen]; exact g0
 
-theorem writeNodeMalloc_typed {cfg : Cfg} {st : Bool} {s s' : Ledger} {b : Buf} {n : Nat} (hc : Core cfg st s)
+theorem writeNodeMalloc_typed {cfg : Cfg} {st : Bool} {s s' : Mem} {b : Buf} {n : Nat} (hc : Core cfg st s)
     (hm : WriteManaged s b.chain b.w) (h : writeNodeMalloc s b n = some s') : Ext s s' ∧ Core cfg st s' := by
   obtain ⟨i, nd, g0, g1, g2⟩ := hm
   unfold writeNodeMalloc at h
@@ -100,7 +100,7 @@ theorem writeNodeMalloc_typed {cfg : Cfg} {st : Bool} {s s' : Ledger} {b : Buf} 
     exact ⟨Ext.of_blocks_eq rfl, emit_core c1 (evOK_write (s := s.setNode i _) k1 k2)⟩
   · cases h; exact ⟨Ext.of_blocks_eq rfl, c1⟩
 
-theorem malloc_typed {cfg : Cfg} {st : Bool} {s s' : Ledger} {b b' : Buf} {n : Int} (hc : Core cfg st s) (hb : BufOK cfg s b)
+theorem malloc_typed {cfg : Cfg} {st : Bool} {s s' : Mem} {b b' : Buf} {n : Int} (hc : Core cfg st s) (hb : BufOK cfg s b)
     (h : malloc cfg s b n = some (s', b')) : Tri cfg st s s' b' := by
   unfold malloc at h
   split at h
@@ -117,10 +117,10 @@ theorem malloc_typed {cfg : Cfg} {st : Bool} {s s' : Ledger} {b b' : Buf} {n : I
         obtain ⟨e2, c2⟩ := writeNodeMalloc_typed c1 (hm (by omega)) hw
         exact ⟨e1.trans e2, c2, hb1.ext e2⟩
 
-theorem NodeOK.discard {cfg : Cfg} {s : Ledger} {nd : NodeS} (h : NodeOK cfg s nd) : NodeOK cfg s nd.discard :=
+theorem NodeOK.discard {cfg : Cfg} {s : Mem} {nd : NodeS} (h : NodeOK cfg s nd) : NodeOK cfg s nd.discard :=
   h.of_same rfl rfl rfl
 
-theorem mallocAck_typed {cfg : Cfg} {st : Bool} {s s' : Ledger} {b b' : Buf} {n : Int} (hc : Core cfg st s) (hb : BufOK cfg s b)
+theorem mallocAck_typed {cfg : Cfg} {st : Bool} {s s' : Mem} {b b' : Buf} {n : Int} (hc : Core cfg st s) (hb : BufOK cfg s b)
     (h : mallocAck s b n = some (s', b')) : Tri cfg st s s' b' := by
   unfold mallocAck at h
   split at h
@@ -147,7 +147,7 @@ theorem mallocAck_typed {cfg : Cfg} {st : Bool} {s s' : Ledger} {b b' : Buf} {n 
               (putAll_ext _ _).trans (putAll_ext _ _)
             exact ⟨e, c2, (hb.ext e).of_caches_eq rfl rfl⟩
 
-theorem flushCommit_typed {cfg : Cfg} {st : Bool} {s s' : Ledger} {b b' : Buf} (hc : Core cfg st s) (hb : BufOK cfg s b)
+theorem flushCommit_typed {cfg : Cfg} {st : Bool} {s s' : Mem} {b b' : Buf} (hc : Core cfg st s) (hb : BufOK cfg s b)
     (h : flushCommit s b = some (s', b')) : Tri cfg st s s' b' := by
   unfold flushCommit at h
   split at h
@@ -167,7 +167,7 @@ theorem flushCommit_typed {cfg : Cfg} {st : Bool} {s s' : Ledger} {b b' : Buf} (
       have e2 := putAll_ext (mid.map fun p => (p.1, p.2.commit)) s
       exact ⟨e2, c2, (hb.ext e2).of_caches_eq rfl rfl⟩
 
-theorem flush_typed {cfg : Cfg} {st : Bool} {s s' : Ledger} {b b' : Buf} (hc : Core cfg st s) (hb : BufOK cfg s b)
+theorem flush_typed {cfg : Cfg} {st : Bool} {s s' : Mem} {b b' : Buf} (hc : Core cfg st s) (hb : BufOK cfg s b)
     (h : flush cfg s b = some (s', b')) : Tri cfg st s s' b' := by
   unfold flush at h
   split at h
@@ -184,7 +184,7 @@ theorem flush_typed {cfg : Cfg} {st : Bool} {s s' : Ledger} {b b' : Buf} (hc : C
       · refine flushCommit_typed hc ?_ h
         exact hb.of_caches_eq rfl rfl
 
-theorem writeBuffer_typed {cfg : Cfg} {st : Bool} {s s' : Ledger} {b d b' d' : Buf} (hc : Core cfg st s) (hb : BufOK cfg s b)
+theorem writeBuffer_typed {cfg : Cfg} {st : Bool} {s s' : Mem} {b d b' d' : Buf} (hc : Core cfg st s) (hb : BufOK cfg s b)
     (hd : BufOK cfg s d) (h : writeBuffer cfg s b d = some (s', b', d')) :
     Tri cfg st s s' b' ∧ BufOK cfg s' d' := by
   unfold writeBuffer at h
@@ -209,10 +209,10 @@ theorem writeBuffer_typed {cfg : Cfg} {st : Bool} {s s' : Ledger} {b d b' d' : B
               have e := e1.trans e2
               exact ⟨⟨e, c2, (hb.ext e).of_caches_eq rfl rfl⟩, (hd.ext e).of_caches_eq rfl rfl⟩
 
-theorem allocBlock_nodes (s : Ledger) (k : Kind) (c : Nat) : (s.allocBlock k c).1.nodes = s.nodes := by
-  cases k <;> simp [Ledger.allocBlock]
+theorem allocBlock_nodes (s : Mem) (k : Kind) (c : Nat) : (s.allocBlock k c).1.nodes = s.nodes := by
+  cases k <;> simp [Mem.allocBlock]
 
-theorem writeBinary_typed {cfg : Cfg} {st : Bool} {s s' : Ledger} {b b' : Buf} {n pcap : Nat} (hc : Core cfg st s)
+theorem writeBinary_typed {cfg : Cfg} {st : Bool} {s s' : Mem} {b b' : Buf} {n pcap : Nat} (hc : Core cfg st s)
     (hb : BufOK cfg s b) (h : writeBinary cfg s b n pcap = some (s', b')) : Tri cfg st s s' b' := by
   unfold writeBinary at h
   split at h
@@ -244,7 +244,7 @@ theorem writeBinary_typed {cfg : Cfg} {st : Bool} {s s' : Ledger} {b b' : Buf} {
           obtain ⟨e3, c3⟩ := writeNodeMalloc_typed c2 (hm hn) hw
           exact ⟨e1.trans (e2.trans e3), c3, hb2.ext e3⟩
 
-theorem resetTail_typed {cfg : Cfg} {st : Bool} {s s' : Ledger} {b b' : Buf} {ms : Nat} (hc : Core cfg st s)
+theorem resetTail_typed {cfg : Cfg} {st : Bool} {s s' : Mem} {b b' : Buf} {ms : Nat} (hc : Core cfg st s)
     (hb : BufOK cfg s b) (h : resetTail cfg s b ms = some (s', b')) : Tri cfg st s s' b' := by
   unfold resetTail at h
   split at h
@@ -257,7 +257,7 @@ theorem resetTail_typed {cfg : Cfg} {st : Bool} {s s' : Ledger} {b b' : Buf} {ms
       cases h
       exact ⟨e1, c1, (hb.ext e1).of_caches_eq rfl rfl⟩
 
-theorem getBytesLoop_typed {cfg : Cfg} {st : Bool} {id : Nat} : ∀ (l : List Nat) {s s' : Ledger} {cnt k c : Nat},
+theorem getBytesLoop_typed {cfg : Cfg} {st : Bool} {id : Nat} : ∀ (l : List Nat) {s s' : Mem} {cnt k c : Nat},
     Core cfg st s → getBytesLoop s id l cnt k = some (s', c) → s'.blocks = s.blocks ∧ Core cfg st s'
   | [], s, s', cnt, k, c, hc, h => by simp [getBytesLoop] at h; obtain ⟨rfl, _⟩ := h; exact ⟨rfl, hc⟩
   | i :: rest, s, s', cnt, k, c, hc, h => by
@@ -279,7 +279,7 @@ theorem getBytesLoop_typed {cfg : Cfg} {st : Bool} {id : Nat} : ∀ (l : List Na
             exact ⟨by rw [k1, addView_blocks]; rfl, cc⟩
         · exact getBytesLoop_typed rest hc h
 
-theorem getBytes_typed {cfg : Cfg} {st : Bool} {s s' : Ledger} {id : Nat} {b b' : Buf} {k : Nat} (hc : Core cfg st s)
+theorem getBytes_typed {cfg : Cfg} {st : Bool} {s s' : Mem} {id : Nat} {b b' : Buf} {k : Nat} (hc : Core cfg st s)
     (hb : BufOK cfg s b) (h : getBytes s id b k = some (s', b')) : Tri cfg st s s' b' := by
   unfold getBytes at h
   split at h
